@@ -50,6 +50,8 @@ class Child(HasTraits):
     # two-level chains
     cx = DelegatesTo("mid", prefix="x")
     cmy = PrototypedFrom("mid", prefix="my")
+    # declared without a forwarding listener: mirrors, but announces nothing
+    lq = PrototypedFrom("parent", prefix="x", listenable=False)
 
 
 class ChildSub(Child):
@@ -74,6 +76,8 @@ class ChildMixed(PrefixMixin):
     pb = PrototypedFrom("parent", prefix="*")
     cx = DelegatesTo("mid", prefix="x")
     cmy = PrototypedFrom("mid", prefix="my")
+    # declared without a forwarding listener: mirrors, but announces nothing
+    lq = PrototypedFrom("parent", prefix="x", listenable=False)
 
 
 DEFAULTS = {"parent": None, "mid": None}
@@ -118,5 +122,6 @@ DEFER = {
     "pb": ("proto", "parent", "q_pb"),
     "cx": ("delegate", "mid", "x"),
     "cmy": ("proto", "mid", "my"),
+    "lq": ("proto", "parent", "x"),
 }
 STR_ATTRS = {"y", "my"}
